@@ -1,3 +1,212 @@
+import Cello.Fmt
+import CelloGen.Fmt
 import Driver.Common
-/- driver for engine `fmt` — stub, replaced when the engine is built -/
-def main (_args : List String) : IO Unit := IO.println "O not-implemented"
+/- driver for engine `fmt` (C14).
+
+   op lines (tokens separated by single spaces; byte strings in hex, `-` = empty):
+     P <start> <old> <fmt> <nargs> <arg>… T <n> (<frag> <val> <out>)…     print_to_with on a String sink holding <old>, from <start>
+     K …same…                                                              same run; the harness additionally checks "sink unchanged on FormatError"
+     M <start> <old> <fmt> <nargs> <arg>…                                  format outside the grammar: only "does it leave its buffers?"
+   arg ::= i <int64> | f <16 hex digits: bits of the double> | s <bytes> | A <n> <arg>… | U <n> <arg>… | L <n> <arg>…
+   table entry: what libc prints for fragment <frag> with value <val> ::= i<int64> | d<bits> | s<bytes>   (the model's `prim`)
+
+   O lines (compared with harness/h_fmt.c):
+     O W exc=<e> pos=<p> calls=<frag:val;…> str=<bytes>      recording sink in front of a String
+     O S exc=<e> pos=<p> str=<bytes>                          plain String sink
+     O F exc=<e> pos=<p> out=<bytes>                          File sink whose content was <old>[0..start)
+   R lines (not compared): marks, agreement of the machine with the reference semantics on the parsed segments. -/
+open Cello.Fmt
+
+namespace FmtDrv
+
+def cfg : Cfg := Cfg.ofGen CelloGen.Fmt.printConv CelloGen.Fmt.printDispatch
+
+def scfg : ShowCfg :=
+  { intFmt := CelloGen.Fmt.intShowFmt, fltFmt := CelloGen.Fmt.floatShowFmt
+    strOpen := CelloGen.Fmt.strShowOpen, strClose := CelloGen.Fmt.strShowClose
+    strDefault := CelloGen.Fmt.strShowDefault, strEsc := CelloGen.Fmt.strShowEsc
+    arrOpen := CelloGen.Fmt.arrayShowOpen, arrSep := CelloGen.Fmt.arrayShowSep, arrClose := CelloGen.Fmt.arrayShowClose
+    tupOpen := CelloGen.Fmt.tupleShowOpen, tupSep := CelloGen.Fmt.tupleShowSep, tupClose := CelloGen.Fmt.tupleShowClose
+    lstOpen := CelloGen.Fmt.listShowOpen, lstSep := CelloGen.Fmt.listShowSep, lstClose := CelloGen.Fmt.listShowClose }
+
+def hexDigit (n : Nat) : Char := if n < 10 then Char.ofNat (48 + n) else Char.ofNat (87 + n)
+
+def hexOf (s : Str) : String :=
+  if s.isEmpty then "-" else String.ofList (s.flatMap fun c => [hexDigit (c.toNat / 16 % 16), hexDigit (c.toNat % 16)])
+
+def hexVal (c : Char) : Option Nat :=
+  if '0' ≤ c ∧ c ≤ '9' then some (c.toNat - 48)
+  else if 'a' ≤ c ∧ c ≤ 'f' then some (c.toNat - 87)
+  else if 'A' ≤ c ∧ c ≤ 'F' then some (c.toNat - 55) else none
+
+def unhexL : List Char → Option Str
+  | [] => some []
+  | a :: b :: r => do
+    let x ← hexVal a; let y ← hexVal b; let t ← unhexL r
+    pure (Char.ofNat (x * 16 + y) :: t)
+  | _ => none
+
+def unhex (s : String) : Option Str := if s = "-" then some [] else unhexL s.toList
+
+def hexNat (s : String) : Option Nat :=
+  s.toList.foldlM (fun acc c => (hexVal c).map (acc * 16 + ·)) 0
+
+def hex16 (n : Nat) : String :=
+  String.ofList ((List.range 16).map fun k => hexDigit (n / 16 ^ (15 - k) % 16))
+
+/-- parse one argument; returns it with the remaining tokens -/
+partial def parseArg : List String → Option (Obj × List String)
+  | "i" :: v :: r => v.toInt?.map fun x => (Obj.int x, r)
+  | "f" :: b :: r => (hexNat b).map fun x => (Obj.flt x, r)
+  | "s" :: h :: r => (unhex h).map fun x => (Obj.str x, r)
+  | k :: n :: r =>
+    if k = "A" ∨ k = "U" ∨ k = "L" then do
+      let n ← n.toNat?
+      let (items, r) ← parseArgs n r
+      pure ((if k = "A" then Obj.array items else if k = "U" then Obj.tuple items else Obj.list items), r)
+    else none
+  | _ => none
+where
+  parseArgs : Nat → List String → Option (List Obj × List String)
+    | 0, r => some ([], r)
+    | n+1, r => do
+      let (a, r) ← parseArg r
+      let (as, r) ← parseArgs n r
+      pure (a :: as, r)
+
+def parseVal (s : String) : Option PVal :=
+  match s.toList with
+  | 'i' :: r => (String.ofList r).toInt?.map PVal.i64
+  | 'd' :: r => (hexNat (String.ofList r)).map PVal.dbl
+  | 's' :: r => (unhex (String.ofList r)).map PVal.cstr
+  | _ => none
+
+def parseTable : Nat → List String → Option (List ((Str × PVal) × Str))
+  | 0, [] => some []
+  | 0, _ => none
+  | n+1, f :: v :: o :: r => do
+    let f ← unhex f; let v ← parseVal v; let o ← unhex o; let t ← parseTable n r
+    pure (((f, v), o) :: t)
+  | _, _ => none
+
+/-- the model's `prim`: libc's text for one call, looked up in the table the op line carries -/
+def primOf (tab : List ((Str × PVal) × Str)) (frag : Str) (v : PVal) : Str :=
+  match v with
+  | .none => if frag = ['%', '%'] then ['%'] else frag
+  | .ptr => ['<', 'P', '>']
+  | .i64 x =>
+    if frag = ['%', 'c'] then [Char.ofNat (x % 256).toNat]
+    else (tab.lookup (frag, v)).getD ['<', '?', '>']
+  | _ => (tab.lookup (frag, v)).getD ['<', '?', '>']
+
+def showVal : PVal → String
+  | .none => "n"
+  | .cstr s => "s" ++ hexOf s
+  | .i64 v => "i" ++ toString v
+  | .dbl b => "d" ++ hex16 b
+  | .ptr => "p"
+
+def showCalls (cs : List Call) : String :=
+  if cs.isEmpty then "-" else ";".intercalate (cs.map fun c => hexOf c.frag ++ ":" ++ showVal c.val)
+
+def excName : Outcome → String
+  | .ok => "none"
+  | .raised .FormatError => "FormatError"
+  | .raised .ClassError => "ClassError"
+  | .raised .Fuel => "model-fuel"
+  | .oob => "model-oob"
+
+def posStr (r : Result) : String := if r.oc = .ok then toString r.out.pos else "-"
+
+def sinkBytes : Sink → Str
+  | .str v => v
+  | .file c => c
+
+structure Op where
+  start : Nat
+  old : Str
+  fmt : Str
+  args : List Obj
+  tab : List ((Str × PVal) × Str)
+
+def parseOp (ws : List String) (withTable : Bool) : Option Op :=
+  match ws with
+  | st :: old :: fmt :: n :: r => do
+    let st ← st.toNat?; let old ← unhex old; let fmt ← unhex fmt; let n ← n.toNat?
+    let (args, r) ← parseArg.parseArgs n r
+    if withTable then
+      match r with
+      | "T" :: m :: r => do
+        let m ← m.toNat?; let tab ← parseTable m r
+        pure ⟨st, old, fmt, args, tab⟩
+      | _ => none
+    else if r.isEmpty then pure ⟨st, old, fmt, args, []⟩ else none
+  | _ => none
+
+def depthFuel : Nat := 64
+
+def scalarKind : Obj → Option Nat
+  | .int _ => some 0
+  | .flt _ => some 1
+  | .str _ => some 2
+  | _ => none
+
+/-- what harness/h_fmt.c accepts: no NUL inside strings, Arrays / Lists of scalars of one type, at most 1000 items -/
+partial def validObj : Obj → Bool
+  | .str s => !s.contains NUL
+  | .array items | .list items =>
+    items.length ≤ 1000 && match items with
+      | [] => true
+      | a :: _ => (scalarKind a).isSome && items.all fun x => scalarKind x == scalarKind a && validObj x
+  | .tuple items => items.length ≤ 1000 && items.all validObj
+  | _ => true
+
+def validOp (op : Op) : Bool :=
+  op.start ≤ op.old.length && op.start ≤ 1000000 && !op.old.contains NUL && !op.fmt.contains NUL &&
+  op.args.length ≤ 1000 && op.args.all validObj
+
+def runP (op : Op) : IO Unit := do
+  if !inGrammar cfg.conv op.fmt then
+    IO.println "O outside-grammar"
+    return
+  let prim := primOf op.tab
+  let rS := printTo cfg prim scfg depthFuel op.fmt op.args ⟨.str op.old, op.start, []⟩
+  let rF := printTo cfg prim scfg depthFuel op.fmt op.args ⟨.file (op.old.take op.start), op.start, []⟩
+  IO.println s!"O W exc={excName rS.oc} pos={posStr rS} calls={showCalls rS.out.calls} str={hexOf (sinkBytes rS.out.sink)}"
+  IO.println s!"O S exc={excName rS.oc} pos={posStr rS} str={hexOf (sinkBytes rS.out.sink)}"
+  IO.println s!"O F exc={excName rF.oc} pos={posStr rF} out={hexOf (sinkBytes rF.out.sink)}"
+  -- self-check of the model against its reference semantics (not compared with the harness)
+  let shw := showD cfg prim scfg depthFuel
+  let ref := match parseFmt cfg.conv op.fmt with
+    | some segs => some (refRun cfg prim shw op.args segs 0 ⟨.str op.old, op.start, []⟩, segs.length, nspecs segs)
+    | none => none
+  let agree := match ref with
+    | some (p, _, _) => if p = rS.pair then "same" else "DIFF"
+    | none => "unparsed"
+  let (nseg, nsp) := match ref with
+    | some (_, a, b) => (a, b)
+    | none => (0, 0)
+  IO.println s!"R len={op.fmt.length} rd={rS.marks.rdMax} wr={rS.marks.wrMax} ref={agree} segs={nseg} specs={nsp} args={op.args.length} calls={rS.out.calls.length}"
+
+def runM (op : Op) : IO Unit := do
+  let prim := primOf []
+  let r := printTo cfg prim scfg depthFuel op.fmt op.args ⟨.str op.old, op.start, []⟩
+  IO.println s!"O M oob={if r.oc = .oob then 1 else 0}"
+  IO.println s!"R len={op.fmt.length} rd={r.marks.rdMax} wr={r.marks.wrMax} oc={excName r.oc}"
+
+end FmtDrv
+
+def main (args : List String) : IO Unit := do
+  let lines ← Driver.inputLines args
+  for l in lines do
+    if Driver.isSkippable l then continue
+    match Driver.words l with
+    | "P" :: ws | "K" :: ws =>
+      match FmtDrv.parseOp ws true with
+      | some op => if FmtDrv.validOp op then FmtDrv.runP op else IO.println "O bad-op"
+      | none => IO.println "O bad-op"
+    | "M" :: ws =>
+      match FmtDrv.parseOp ws false with
+      | some op => if FmtDrv.validOp op then FmtDrv.runM op else IO.println "O bad-op"
+      | none => IO.println "O bad-op"
+    | _ => IO.println "O bad-op"
